@@ -8,6 +8,8 @@ import (
 
 	"github.com/miekg/dns"
 
+	mcache "github.com/semihalev/sdns/middleware/cache"
+
 	"verifsim/kit"
 	"verifsim/simnet"
 	"verifsim/world"
@@ -43,6 +45,7 @@ type C04Scenario struct {
 	Prefetch uint32   `json:"prefetch,omitempty"`
 	NoNSEC   bool     `json:"rfc8198_off,omitempty"`
 	SlowMs   int      `json:"slow_ms,omitempty"` // upstream latency of the leaf zones (prefetch races)
+	Wire     bool     `json:"wire,omitempty"`    // queries enter as datagrams through the UDP engine (wire cache ladder) instead of Server.ServeMsg
 	Ops      []C04Op  `json:"ops"`
 }
 
@@ -53,7 +56,7 @@ func init() {
 		ID:    "C04",
 		Level: "exploration",
 		Rule: "Scenario = record TTLs (1 s .. 3 days, around the 5 s floor and the 24 h cap), alias TTL, NS TTL of the zone (delegation lease), SOA TTL and " +
-			"minimum, signature lifetime (20 s .. days), prefetch threshold, RFC 8198 on/off, upstream latency + 10-60 queries (hosts, in-zone and " +
+			"minimum, signature lifetime (20 s .. days), prefetch threshold, RFC 8198 on/off, upstream latency, ingress (decoded at Server.ServeMsg, or datagrams through the UDP engine so that hits take the wire ladder) + 10-60 queries (hosts, in-zone and " +
 			"cross-zone aliases, NXDOMAIN names and names below them, NODATA types; DO/CD variants) at gaps from 0.2 s to 30 h, over a signed and an " +
 			"unsigned leaf zone. Non-trivial = at least one reply was served from cached data (no upstream query for it) and one entry expired " +
 			"and was refetched. Distinct = hash of per-query (name family, type, from-cache, age bucket, rcode).",
@@ -63,8 +66,8 @@ func init() {
 			"signature expiration bounds data of the signed zone only",
 		},
 		Components: kit.Components{
-			Real: []string{"whole chain: cache (Msg ladder), negative/denial caches, subtree cuts, alias chase, prefetch, resolver, DNSSEC validation"},
-			Stub: []string{"network (simnet)", "authoritative servers (authsim, content stamped with the serving time)", "listeners (queries enter at Server.ServeMsg)"},
+			Real: []string{"server UDP engine + Server.ServeRaw and the cache wire ladder (about a third of the scenarios)", "whole chain: cache (Msg ladder), negative/denial caches, subtree cuts, alias chase, prefetch, resolver, DNSSEC validation"},
+			Stub: []string{"network (simnet)", "authoritative servers (authsim, content stamped with the serving time)", "kernel sockets (simsock) in wire-mode scenarios; in the others the listeners (queries enter at Server.ServeMsg)"},
 		},
 		Gen:      func(r *kit.RNG, tier string) any { return genC04(r) },
 		Blank:    func() any { return &C04Scenario{} },
@@ -92,6 +95,7 @@ func genC04(r *kit.RNG) *C04Scenario {
 		sc.Prefetch = kit.Pick(r, []uint32{10, 50, 90})
 	}
 	sc.NoNSEC = r.Chance(0.4)
+	sc.Wire = r.Chance(0.35)
 	if r.Chance(0.3) {
 		sc.SlowMs = kit.Pick(r, []int{300, 1200})
 	}
@@ -163,8 +167,30 @@ func c04Run(sc *C04Scenario, tr *kit.Trace, res *kit.Result) {
 		},
 		Cfg: world.CfgSpec{Prefetch: sc.Prefetch, RFC8198Off: sc.NoNSEC, Expire: 600},
 	}
-	r := world.NewRes(spec, 4, tr)
-	defer r.Close()
+	var r *world.Res
+	var g *world.Ing
+	if sc.Wire {
+		// a pool that never queues: a reply delayed behind busy workers would carry older TTLs
+		var err error
+		g, err = world.NewIng(spec, world.IngSpec{Workers: 64, Queue: 64, Sockets: 1, Spare: 64}, 4, tr)
+		if err != nil {
+			res.Fail("C04/harness", "listener: %v", err)
+			return
+		}
+		defer g.Close()
+		r = g.Res
+		wireBefore := mcache.VerifWireCounters()
+		defer func() {
+			for k, v := range mcache.VerifWireCounters() {
+				if d := v - wireBefore[k]; d > 0 {
+					res.Probes["wire-ladder:"+k] += int(d)
+				}
+			}
+		}()
+	} else {
+		r = world.NewRes(spec, 4, tr)
+		defer r.Close()
+	}
 	leaf := map[string]bool{"sig.test.": true, "plain.test.": true}
 	for name := range leaf {
 		z := r.World.Zones[name]
@@ -227,15 +253,36 @@ func c04Run(sc *C04Scenario, tr *kit.Trace, res *kit.Result) {
 		q.CheckingDisabled = op.CD
 		before := r.Net.SentCount()
 		askStart := r.Now()
-		c := r.Ask(client, "udp", q)
-		kit.Settle()
+		var replies []*dns.Msg
+		if g != nil {
+			raw, err := q.Pack()
+			if err != nil {
+				res.Fail("C04/harness", "pack: %v", err)
+				return
+			}
+			seenOut := len(g.K.Out)
+			g.Send(0, client, raw)
+			kit.Settle()
+			for waited := 0; waited < 200 && len(g.K.Out) == seenOut; waited++ {
+				kit.SleepSettle(100 * time.Millisecond) // the worker pool answers on its own goroutines
+			}
+			for _, s := range g.K.Out[seenOut:] {
+				rm := new(dns.Msg)
+				if s.To == client && rm.Unpack(s.Data) == nil && rm.Id == q.Id {
+					replies = append(replies, rm)
+				}
+			}
+		} else {
+			replies = r.Ask(client, "udp", q).Replies
+			kit.Settle()
+		}
 		now := r.Now()
 		upstream := r.Net.SentCount() - before
-		if len(c.Replies) != 1 {
-			tr.Add("op %d %s/%s: %d replies", i, name, dns.TypeToString[qt], len(c.Replies))
+		if len(replies) != 1 {
+			tr.Add("op %d %s/%s: %d replies", i, name, dns.TypeToString[qt], len(replies))
 			continue
 		}
-		m := c.Replies[0]
+		m := replies[0]
 		// the zone chain's smallest NS TTL bounds the lease from above
 		lease := c04Clamp(sc.NSTTL)
 		if sc.NSTTL > 86400 {
